@@ -10,6 +10,10 @@
 //	slow      (b) a real listener whose consumer stops reading
 //	healthy   (b) real listeners that are consumed concurrently by a harness "socket writer"
 //	hist0     history length 0 (monitor disabled): no panic, no block
+//	e2e       real store -> StoreManager -> extension host -> hub -> real socket listeners; deliveries
+//	          to one or several recipients, also with a faulty mailbox among them
+//	bighist   (b) history lengths 450..2500: real listeners join a hub retaining more than 500 messages
+//	e2ebig    e2e with history 700/1000 and more than 500 messages stored and not removed
 //	ws        (c) thorough only: real WebSocket clients against the real routes
 //	shutdown  operations after / during cancellation of the hub's context (run last: a panic here
 //	          kills the child, which the parent reports as crash:<function>)
@@ -56,6 +60,8 @@ func init() {
 			"the v1 socket API has no deleted events (code comment in socketv1_controller.go), so v1 listeners are expected to deliver stored events only",
 			"what a listener's client receives after the listener was closed or dropped is not judged beyond order (no duplicates, no reordering)",
 			"history length 0 is run for no-panic/no-block only (doc/config.md: the monitor is disabled)",
+			"a storage fault is planted before a Deliver call and repaired right after it, and the listings that define what the call owes are taken with the fault repaired; the index-write fault is not planted on a mailbox at its cap (what an eviction whose index update fails owes is not judged)",
+			"a listener whose consumer has not read anything yet when the hub has just replayed the retained history to it is not 'slow': the replay is one hub operation and the socket writer goroutine may not have been scheduled; live events are issued in bursts of at most 40 (the close stream already relies on 100 beyond the history)",
 			"bounded progress: Hub.Sync after 250 further events must return within 20 s (x4 on the parent's confirmation rerun)",
 		},
 		MinObs: func(tier string) map[string]int64 {
@@ -87,15 +93,34 @@ func init() {
 				"healthy_real_events_delivered":      100000,
 				"healthy_v2_delete_events":           8000,
 				"hist0_cases":                        48,
-				"shutdown_cases":                     192,
-				"shutdown_ops_after_cancel":          30000,
-				"evaluations":                        20000,
-				"distinct_nontrivial":                4000,
+				// added after seeded change C15-7
+				"e2e_multi_recipient_deliveries": 1200,
+				"e2e_deliveries_failed_by_fault": 800,
+				"e2e_partial_deliveries":         700,
+				"e2e_fault_enotdir":              120,
+				"e2e_fault_garbage-index":        120,
+				"e2e_fault_index-tmp-is-dir":     40,
+				"e2e_fault_refused":              400,
+				// added after seeded change C15-8
+				"bighist_cases":                                     96,
+				"bighist_unfiltered_joins_over_500":                 60,
+				"bighist_filtered_joins_over_500":                   25,
+				"bighist_filtered_joins_small_share_of_big_history": 40,
+				"bighist_history_events_replayed":                   150000,
+				"bighist_live_events_delivered":                     40000,
+				"bighist_concurrent_listeners_checked":              40,
+				"e2ebig_histories":                                  6,
+				"e2ebig_late_joiners_replayed_over_500":             4,
+				"shutdown_cases":                                    192,
+				"shutdown_ops_after_cancel":                         30000,
+				"evaluations":                                       20000,
+				"distinct_nontrivial":                               4000,
 			}
 			if tier == "thorough" {
 				m["ws_cases"] = 240
 				m["ws_events_read"] = 50000
 				m["ws_good_clients_checked"] = 600
+				m["ws_clients_replayed_over_500"] = 30
 				m["close_cases"] = 2880
 				m["slow_cases"] = 240
 			}
@@ -128,6 +153,12 @@ func run(c *fw.Ctx) {
 	}
 	if want("e2e") {
 		c.Cases("e2e", c.N(480, 9600), func(i int, r *fw.Rand) { e2eCase(c, i, r) })
+	}
+	if want("bighist") {
+		c.Cases("bighist", c.N(96, 960), func(i int, r *fw.Rand) { bigHistCase(c, i, r) })
+	}
+	if want("e2ebig") {
+		c.Cases("e2ebig", c.N(8, 80), func(i int, r *fw.Rand) { e2eBigCase(c, i, r) })
 	}
 	if (!c.Quick() || os.Getenv("C15_STREAMS") != "") && want("ws") {
 		wsCases(c)
